@@ -820,6 +820,12 @@ pub fn run(cli: Cli) -> ! {
             specs.push(Spec { initial: two.clone(), history, paged: false, streaming: true, during_initial: during_initial.clone() });
         }
     }
+    // a fleet larger than one page of the watcher's default page size (500): the re-list is observed between its pages
+    {
+        let fleet: Vec<(String, String)> = (0..640).map(|i| (format!("gs-{i:04}"), if i % 7 == 0 { "allocated".to_string() } else { "ready".to_string() })).collect();
+        specs.push(Spec { initial: fleet.clone(), history: vec![Ev::GoneRelistHeld], paged: false, streaming: false, during_initial: vec![] });
+        specs.push(Spec { initial: fleet, history: vec![Ev::Delete { name: "gs-0600".into() }, Ev::GoneRelistHeld, Ev::Apply { name: "gs-0001".into(), shape: "shutdown".into() }], paged: false, streaming: false, during_initial: vec![] });
+    }
     // a re-list that is observed while it is incomplete
     specs.push(Spec { initial: five.clone(), history: vec![Ev::GoneRelistHeld], paged: true, streaming: false, during_initial: vec![] });
     specs.push(Spec { initial: five.clone(), history: vec![Ev::Apply { name: "c".into(), shape: "shutdown".into() }, Ev::GoneRelistHeld, Ev::Delete { name: "d".into() }], paged: true, streaming: false, during_initial: vec![] });
